@@ -334,11 +334,33 @@ func (s *sweepReader) Read(p []byte) (int, error) {
 	default:
 		// words after v: a fixed scattered sequence, so that ANY sampler that accepts more than half of all words comes
 		// to an end quickly (consecutive small numbers would all be rejected by a sampler that rejects at the low end)
+		if s.k-len(s.prefix) > sweepStuckAfter {
+			panic(sweepStuck{})
+		}
 		j := uint32(s.k - len(s.prefix) - 1)
 		binary.BigEndian.PutUint32(p, (j+1)*2654435761+0x9E3779B9)
 	}
 	s.k++
 	return 4, nil
+}
+
+// A draw that has rejected this many consecutive words of the scattered sequence does not terminate: a sampler that accepts more
+// than half of all raw values rejects 4096 given, well spread words in a row with probability below 2^-4096.
+const sweepStuckAfter = 4096
+
+type sweepStuck struct{}
+
+func sweepCall(n uint32, v uint64) (res uint32) {
+	defer func() {
+		if r := recover(); r != nil {
+			if _, ok := r.(sweepStuck); ok {
+				fmt.Printf("{\"stuck\":1,\"v\":%d}\n", v)
+				os.Exit(6)
+			}
+			panic(r)
+		}
+	}()
+	return spg.VerifRandomUint32n(n)
 }
 
 // sweep presents every raw word in [lo,hi) as the FIRST word of a draw with
@@ -375,7 +397,7 @@ func cmdSweep(args []string) {
 		for v := *lo; v < *hi; v++ {
 			r.v = uint32(v)
 			r.k = 0
-			res := spg.VerifRandomUint32n(n)
+			res := sweepCall(n, v)
 			if r.k == len(r.prefix)+1 {
 				accepted++
 				if res >= n {
@@ -397,7 +419,7 @@ func cmdSweep(args []string) {
 	for v := *lo; v < *hi; v++ {
 		r.v = uint32(v)
 		r.k = 0
-		res := spg.VerifRandomUint32n(n)
+		res := sweepCall(n, v)
 		switch {
 		case r.k == len(r.prefix)+1:
 			accepted++
